@@ -6,6 +6,8 @@ import sys
 import time
 
 VERIF = os.path.dirname(os.path.dirname(os.path.abspath(__file__)))
+# where evidence/ and replays/ are written: /verif itself, unless a developer tool (seed verification on scratch copies) redirects it
+OUT = os.environ.get("VERIF_OUT") or VERIF
 REPO = os.environ.get("DOCTRANS_REPO", "/repo")
 EXIT_OK, EXIT_VIOLATION, EXIT_FAULT = 0, 1, 3
 
@@ -82,7 +84,7 @@ class Run:
 
     # -- output -----------------------------------------------------------------------------
     def write_replay(self, v):
-        d = os.path.join(VERIF, "replays", self.pid)
+        d = os.path.join(OUT, "replays", self.pid)
         os.makedirs(d, exist_ok=True)
         name = "%s-%s.json" % (self.pid, sha(v)[:12])
         path = os.path.join(d, name)
@@ -93,7 +95,7 @@ class Run:
 
     def finish(self, level, coverage, assumptions, extra=None):
         wall = round(time.time() - self.t0, 2)
-        os.makedirs(os.path.join(VERIF, "evidence"), exist_ok=True)
+        os.makedirs(os.path.join(OUT, "evidence"), exist_ok=True)
         # group violations by obligation: one VIOLATION line per obligation (first example), all stored
         lines = []
         seen = {}
@@ -127,7 +129,7 @@ class Run:
             {"obligation": k, "what": i["v"]["what"][:500], "replay": i["path"], "more_cases": i["more"]} for k, i in seen.items()
         ]
         ev["checker_faults"] = self.faults
-        with open(os.path.join(VERIF, "evidence", "%s.json" % self.pid), "wt") as f:
+        with open(os.path.join(OUT, "evidence", "%s.json" % self.pid), "wt") as f:
             f.write(dumps(ev, indent=1))
         for h in self.known_hits.values():
             print("KNOWN-FINDING: property=%s %s [%s; %d case(s) this run]" % (self.pid, h["finding"]["what"], h["finding"]["id"], h["count"]))
